@@ -5,10 +5,10 @@ from . import text_bounded
 ID = "C17"
 LEVEL = "other"
 MODES = ["gregorian"]
-FUNCS = ["data:TimePoint.seconds_since_unix_epoch"]
+FUNCS = ["dumpers:TimePointDumper.strftime", "ghost:dump_fields_recompose", "ghost:strftime_year_is_civil_year", "data:TimePoint.seconds_since_unix_epoch"]
 LEMMAS = CAL_LEMMAS
 CANARIES = ["canary.week52"]
-EXPLANATION = ("PROVED: %%s content - seconds_since_unix_epoch is the exact integer distance from the epoch for every whole-second point in any shape/offset. BOUNDED: every supported directive and literal text against POSIX values computed from the spec, for years 0000..9999 boundaries x 3 representations x 12 offsets x 17 format strings; strptime inverse for full formats; 28 unsupported directives refused.")
+EXPLANATION = ("PROVED through the real dumper code path (TimePointDumper.strftime symbolically executed on symbolic TimePoints in all 3 representations): for %%Y, %%F, %%Y-%%m-%%d, %%j, %%H:%%M:%%S, %%X, %%z, %%s the template and the value every conversion prints are those POSIX defines over the civil date-time (civil year contains the day; month/day/day-of-year of that day; h/m/s; sign and magnitudes of the offset; exact Unix seconds), year outside 0000-9999 raises TimePointDumperBoundsError, unsupported directives raise StrftimeSyntaxError; %%s content - seconds_since_unix_epoch is the exact integer distance from the epoch for every whole-second point in any shape/offset. BOUNDED: every supported directive and literal text against POSIX values computed from the spec, for years 0000..9999 boundaries x 3 representations x 12 offsets x 17 format strings; strptime inverse for full formats; 28 unsupported directives refused.")
 ASSUMPTIONS = ["%%-template formatting and regex construction are outside the modelled subset"]
 LEVEL_TEXT = "%%s numeric content: proof; directive rendering: bounded grid. Hence other."
 LEVEL_NOTE = "see DESIGN section 5/C17"
